@@ -542,6 +542,12 @@ class SampleList(SampleListBase):
 
         _ensure_proper_sample_list_ending(_sample_file_name(file_name_base, self.n_samples),
                                           overwrite, self.comm)
+        # A plain SampleList has no mean file. Remove a stale one (left by a
+        # ResidualSampleList saved under the same name), otherwise the files
+        # would later be mistaken for a ResidualSampleList.
+        with ensure_all_tasks_succeed(self.comm):
+            if overwrite and self.MPI_master:
+                pathlib.Path(f"{file_name_base}.mean.pickle").unlink(missing_ok=True)
 
         # Save samples
         with ensure_all_tasks_succeed(self.comm):
